@@ -249,7 +249,23 @@ def Src.nonempty (s : Src) : Bool :=
 
 def World.setSrc (w : World) (i : Nat) (s : Src) : World := { w with srcs := w.srcs.set i s }
 
+def Pool.dropOpt (p : Pool) : Option Nat → Pool
+  | none => p
+  | some b => p.dropRef b
+
 /-! ### single-shot ops -/
+
+/-- KERNEL select + `set_result`: the completion of the single-shot op `f` of source `i` selects a
+    buffer and the op adopts it: `buffer_pool.take(id).expect(..).expect("Buffer should not be in use")`,
+    `self.buffer.replace(buffer)` (a previous buffer would be dropped). An empty ring is ENOBUFS. -/
+def adoptFut (w : World) (i : Nat) (s s1 : Src) (f : Fut) (d : Res × Bool) : World :=
+  match w.pool.kselect with
+  | (none, _) => w.setSrc i { s with fut := some { f with done := some (.busy, false) } }
+  | (some b, p1) =>
+    match p1.slotTake b with
+    | (some _, p2) =>
+      { w with pool := p2.dropOpt f.buf }.setSrc i { s1 with fut := some { f with done := some d, buf := some b } }
+    | (none, _) => { w with pool := p1, dead := true }
 
 /-- KERNEL + `set_result`: the pending single-shot op of source `i` is (re)issued on the ring -/
 def ringSingle (w : World) (i : Nat) (s : Src) (f : Fut) (first : Bool) : World :=
@@ -261,16 +277,7 @@ def ringSingle (w : World) (i : Nat) (s : Src) (f : Fut) (first : Bool) : World 
     if first && !f.pollFirst && decide (w.pool.head % 65536 = w.pool.tail % 65536) then
       w.setSrc i { s with fut := some { f with done := some (.busy, false) } }
     else w
-  | .data k =>
-    match w.pool.kselect with
-    | (none, _) => w.setSrc i { s with fut := some { f with done := some (.busy, false) } }
-    | (some b, p1) =>
-      let s1 := s.consume k
-      -- `set_result`: `buffer_pool.take(id).expect(..).expect("Buffer should not be in use")`
-      match p1.slotTake b with
-      | (some _, p2) =>
-        { w with pool := p2 }.setSrc i { s1 with fut := some { f with done := some (.ok k, s1.nonempty), buf := some b } }
-      | (none, _) => { w with pool := p1, dead := true }
+  | .data k => adoptFut w i s (s.consume k) f (.ok k, (s.consume k).nonempty)
   | .eof =>
     match s.kind with
     | .sock | .dgram =>
@@ -281,13 +288,7 @@ def ringSingle (w : World) (i : Nat) (s : Src) (f : Fut) (first : Bool) : World 
       else w.setSrc i { s with fut := some { f with done := some (.ok 0, false) } }
     | _ =>
       -- KERNEL: a zero-length `read` keeps the selected buffer: the completion carries its id
-      match w.pool.kselect with
-      | (none, _) => w.setSrc i { s with fut := some { f with done := some (.busy, false) } }
-      | (some b, p1) =>
-        match p1.slotTake b with
-        | (some _, p2) =>
-          { w with pool := p2 }.setSrc i { s with fut := some { f with done := some (.ok 0, false), buf := some b } }
-        | (none, _) => { w with pool := p1, dead := true }
+      adoptFut w i s s f (.ok 0, false)
 
 /-- the polling driver completes the pending single-shot op of source `i` when the fd is readable -/
 def fbSingle (w : World) (i : Nat) (s : Src) (f : Fut) : World :=
@@ -357,10 +358,6 @@ def kick (w : World) (i : Nat) (first : Bool) : World :=
 
 /-! ### dropping things -/
 
-def Pool.dropOpt (p : Pool) : Option Nat → Pool
-  | none => p
-  | some b => p.dropRef b
-
 /-- `impl Drop for BufferGuard` for every queued multishot result -/
 def Pool.resetGuards (p : Pool) : List (Nat × Nat) → Pool
   | [] => p
@@ -374,13 +371,15 @@ def Pool.dropStrm (p : Pool) (st : Strm) : Pool :=
   | some (some m) => p.dropMOp m
   | _ => p
 
-def Pool.dropSrc (p : Pool) (s : Src) : Pool :=
-  let p1 := match s.fut with
-    | some f => p.dropOpt f.buf
-    | none => p
-  match s.strm with
-  | some st => p1.dropStrm st
-  | none => p1
+def Pool.dropFutOpt (p : Pool) : Option Fut → Pool
+  | some f => p.dropOpt f.buf
+  | none => p
+
+def Pool.dropStrmOpt (p : Pool) : Option Strm → Pool
+  | some st => p.dropStrm st
+  | none => p
+
+def Pool.dropSrc (p : Pool) (s : Src) : Pool := (p.dropFutOpt s.fut).dropStrmOpt s.strm
 
 def Pool.dropSrcs (p : Pool) : List Src → Pool
   | [] => p
@@ -428,13 +427,15 @@ inductive Out where
   | bool (b : Bool)
   deriving Repr, DecidableEq
 
+/-- compio-net `set_recv(&extra)`: only io_uring completions carry the `SOCK_NONEMPTY` flag -/
+def sockStateAfter (pk : PKind) (s : Src) (flag : Bool) : Option Bool :=
+  match pk, s.kind with
+  | .ring, .sock | .ring, .dgram => some flag
+  | _, _ => s.sockState
+
 /-- a completed single-shot op is consumed by the awaiting future: `ResultTakeBuffer::take_buffer` -/
 def finishFut (w : World) (i : Nat) (s : Src) (f : Fut) (r : Res) (flag : Bool) (now : Bool) : World × Out :=
-  -- compio-net `set_recv(&extra)`: only io_uring completions carry the flag
-  let st := match w.pool.kind, s.kind with
-    | .ring, .sock | .ring, .dgram => some flag
-    | _, _ => s.sockState
-  let s' := { s with fut := none, sockState := st }
+  let s' := { s with fut := none, sockState := sockStateAfter w.pool.kind s flag }
   match r with
   | .busy => ({ w with pool := w.pool.dropOpt f.buf }.setSrc i s', .err now "busy")
   | .inval => ({ w with pool := w.pool.dropOpt f.buf }.setSrc i s', .err now "InvalidInput")
@@ -443,6 +444,12 @@ def finishFut (w : World) (i : Nat) (s : Src) (f : Fut) (r : Res) (flag : Bool) 
     match f.buf with
     | some b => ({ w with handles := w.handles ++ [b] }.setSrc i s', .some now b k)
     | none => (w.setSrc i s', .err now "eof")
+
+/-- compio-net `set_recv_op`: `POLL_FIRST` when the last receive left the socket empty -/
+def Src.wantsPollFirst (s : Src) : Bool :=
+  match s.kind with
+  | .sock | .dgram => s.sockState == some false
+  | _ => false
 
 def validSrc (w : World) (i : Nat) : Option Src :=
   if w.pool.released then none else w.srcs[i]?
@@ -456,10 +463,7 @@ def evRead (w : World) (i len pos : Nat) : World × Out :=
     else
       match w.pool.kind with
       | .ring =>
-        let pf := match s.kind with
-          | .sock | .dgram => s.sockState == some false
-          | _ => false
-        let f : Fut := { cap := len, pos := pos, pollFirst := pf, done := none, buf := none }
+        let f : Fut := { cap := len, pos := pos, pollFirst := s.wantsPollFirst, done := none, buf := none }
         let w1 := kick (w.setSrc i { s with fut := some f }) i true
         if s.kind == .file then
           -- a file read always completes; the harness waits for it
@@ -577,9 +581,11 @@ def evNext (w : World) (i : Nat) : World × Out :=
               | _ =>
                 -- sockets: the op may complete inside `push` (`PushEntry::Ready`): terminal item at once
                 let (s2, m2) := fbMulti len w.buflen s m
+                let s3 : Src := { s2 with strm := some { len := len, op := some (some m2) } }
+                let w2 := w1.setSrc i s3
                 match m2.fin with
-                | some r => terminalItem w1 i s2 len m2 r
-                | none => (w1.setSrc i { s2 with strm := some { len := len, op := some (some m2) } }, .pending)
+                | some r => terminalItem w2 i s3 len m2 r
+                | none => (w2, .pending)
       | some m =>
         match m.guards with
         | (k, b) :: rest =>
